@@ -25,7 +25,10 @@ def decRet (s : String) : Option Ret :=
   if s == "ok" then some .ok else if s == "fail" then some .fail else if s == "eof" then some .eof
   else if s == "readerr" then some .readErr
   else if s == "stanzaerr" then some .stanzaErr
-  else if s == "streamerr" then some .streamErr else none
+  else if s == "streamerr" then some .streamErr
+  else if s == "wrapeof" then some .wrapEof else if s == "wrapueof" then some .wrapUeof
+  else if s == "wrapstanza" then some .wrapStanza else if s == "wrapstream" then some .wrapStream
+  else if s == "joineof" then some .joinEof else none
 
 def decProg (s : String) : Option Prog :=
   match s.splitOn "," with
